@@ -142,12 +142,46 @@ func summariseWrappers(p *core.Prog) []*wrapperSummary {
 			val = fn.Params[1]
 		}
 		// appends to the underlying arrow builder in the non-nil half
+		direct := func(i ssa.Instruction) (string, bool) {
+			cl, ok := i.(ssa.CallInstruction)
+			if !ok {
+				return "", false
+			}
+			f := core.CalleeObj(cl)
+			if f == nil || f.Pkg() == nil || f.Pkg().Path() != arrowArray || !strings.HasPrefix(f.Name(), "Append") && !strings.HasPrefix(f.Name(), "Unsafe") {
+				return "", false
+			}
+			return f.Name(), true
+		}
 		isUnder := func(i ssa.Instruction) (string, bool) {
 			cl, ok := i.(ssa.CallInstruction)
 			if !ok {
 				return "", false
 			}
 			f := core.CalleeObj(cl)
+			// a helper method of the same wrapper that appends exactly once on every path to its return (the
+			// type switch over the underlying builder factored out of Append / AppendNonZero) is one append
+			if h := cl.Common().StaticCallee(); h != nil && h != fn && h.Signature.Recv() != nil && fn.Signature.Recv() != nil && len(h.Blocks) > 0 &&
+				types.Identical(h.Signature.Recv().Type(), fn.Signature.Recv().Type()) {
+				hasAppend := false
+				core.EachInstr(h, func(j ssa.Instruction) {
+					if _, ok := direct(j); ok {
+						hasAppend = true
+					}
+				})
+				if hasAppend {
+					mn, mx := pathCounts(h, h.Blocks[0], func(j ssa.Instruction) bool { _, ok := direct(j); return ok })
+					if mn == 1 && mx == 1 {
+						name := "AppendNull"
+						core.EachInstr(h, func(j ssa.Instruction) {
+							if n, ok := direct(j); ok && n != "AppendNull" {
+								name = n
+							}
+						})
+						return name, true
+					}
+				}
+			}
 			if f == nil || f.Pkg() == nil || f.Pkg().Path() != arrowArray || !strings.HasPrefix(f.Name(), "Append") && !strings.HasPrefix(f.Name(), "Unsafe") {
 				return "", false
 			}
